@@ -104,24 +104,29 @@ def gen_layout(rng, tier, counters):
     if rng.random() < 0.12:
         ops.append("D %d" % rng.choice([50, 200, 400]))
         counters["dirty_arena"] += 1
-    # many sections: every copy costs the extracted model (sections x image) list cells, so they stay a small share
     r = rng.random()
-    if tier == "thorough" and r < 0.03:
-        nsec = rng.randrange(8, 64) if r < 0.006 else rng.randrange(8, 24)
-    elif tier == "quick" and r < 0.01:
-        nsec = rng.randrange(8, 20)
+    if r < 0.08:
+        nsec = rng.randrange(8, 64) if (tier == "thorough" or r < 0.02) else rng.randrange(8, 20)
     else:
         nsec = rng.choice([0, 1, 1, 2, 2, 3, 3, 4, 5, 6, 7])
     secs = {0: dict(id=0, order=INT_MIN, align=0, b=0, v=0, name=TEXT_NAME)}
     pool = []
-    big_layout = rng.random() < (0.015 if tier == "quick" else 0.004)     # images of several 100 KiB cost the model seconds each
+    big_layout = rng.random() < 0.05     # images up to 4 MiB: the model copies on run-length chunks (ChunkModel.v), cost independent of the size
     for _ in range(nsec):
         nm = gen_name(rng, pool)
-        al = gen_align(rng, big=0.0 if not big_layout else 0.3)
+        al = gen_align(rng, big=0.0 if not big_layout else 0.05)
+        if big_layout and rng.random() < 0.5:
+            al = rng.choice([4096, 65536, 65536, 1 << 18, 1 << 20])
         if not big_layout and al > 4096 and rng.random() < 0.7:
             al = rng.choice(ALIGN_POW[:8])
         order = rng.choice(ORDERS) if rng.random() < 0.85 else rng.randrange(INT_MIN, INT_MAX + 1)
-        ops.append("N %s %d %d" % (hexname(nm), al, order))
+        if rng.random() < 0.3:
+            ops.append("Ns %s %d %d" % (hexname(nm), al, order))      # name_size = SIZE_MAX: strlen
+            nm = nm.split(b"\0")[0]
+            counters["name_strlen"] += 1
+        else:
+            ops.append("N %s %d %d" % (hexname(nm), al, order))
+        counters["name_len_%s" % ("35" if len(nm) == 35 else "36" if len(nm) == 36 else "gt36" if len(nm) > 36 else "other")] += 1
         ok = (al == 0 or (al & (al - 1)) == 0) and len(nm) <= 35
         if ok:
             sid = len(secs)
@@ -139,7 +144,7 @@ def gen_layout(rng, tier, counters):
         counters["section_" + kind] += 1
     ops += ["I", "L"]
     for nm in rng.sample(pool, min(len(pool), 3)) + [TEXT_NAME, b".nope", gen_name(rng, pool)]:
-        ops.append("B %s" % hexname(nm))
+        ops.append("%s %s" % ("Bs" if rng.random() < 0.3 else "B", hexname(nm)))
     if rng.random() < 0.1:
         ops.append("P %d %d" % (rng.choice([0, 16, 100]), rng.randrange(4)))     # before flatten: offsets unassigned
         counters["copy_unflattened"] += 1
@@ -157,20 +162,17 @@ def gen_layout(rng, tier, counters):
         if s["b"]:
             fit = max(fit, off + s["b"])
         off += rs
-    if need <= 600000:
+    if need <= (1 << 22):
         sizes = [need] * 4 + [need + 1, need + 4096, fit, rng.randrange(0, need + 2)]
         if need:
             sizes += [need - 1, 0]
         if fit:
             sizes += [fit - 1]
-        if 20000 < need <= 200000:
-            sizes = [need, need + 1, max(fit - 1, 0), rng.randrange(0, need + 2)]
-            counters["medium_image"] += 1
         if need > 200000:
-            sizes = [need, max(fit - 1, 0)]
-            counters["big_image"] += 1
-        if nsec > 8:
-            sizes = [need, need + 1, max(fit - 1, 0), fit]      # many sections: every copy costs the model sections x image
+            sizes = [need, need + 1, max(fit - 1, 0), max(need - 1, 0)]     # the python monitor still handles whole images
+            counters["big_image_%s" % ("le1M" if need <= (1 << 20) else "le4M")] += 1
+        elif need > 20000:
+            counters["medium_image"] += 1
         flags_cycle = [0, 1, 2, 3]
         rng.shuffle(flags_cycle)
         for i, n in enumerate(sizes):
@@ -189,9 +191,9 @@ def gen_layout(rng, tier, counters):
         sid = rng.choice(sorted(secs))
         b, v = gen_sizes(rng)
         ops += ["Z %d %d %d %d" % (sid, b, v, rng.randrange(1, 100000)), "C", "F", "L", "C", "P %d 3" % min(layout_end(
-            [(s["align"], s["b"], s["v"]) for s in order]) + 70000, 600000)]
+            [(s["align"], s["b"], s["v"]) for s in order]) + 70000, 1 << 22)]
         counters["resize_after_flatten"] += 1
-    if need <= 600000 and rng.random() < 0.35:
+    if need <= (1 << 22) and rng.random() < 0.35:
         ops.append("J")                  # the real consumer: JitRuntime::_add (flatten + copy into executable memory)
         counters["jit_add"] += 1
     return " ".join(ops)
@@ -224,38 +226,59 @@ def gen_overflow(rng, counters):
 
 def gen_addrtab(rng, counters):
     ops = []
+    secs = [dict(id=0, order=INT_MIN, align=0, b=0, v=0)]
     npre = rng.choice([0, 0, 1, 2])
     for i in range(npre):
-        ops.append("N %s %d %d" % (hexname(b".pre%d" % i), rng.choice(ALIGN_POW[:8]), rng.choice([-5, 0, 0, 3])))
+        al, order = rng.choice(ALIGN_POW[:8]), rng.choice([-5, 0, 0, 3])
+        ops.append("N %s %d %d" % (hexname(b".pre%d" % i), al, order))
         b, v = gen_sizes(rng)
+        secs.append(dict(id=i + 1, order=order, align=al, b=b, v=v))
         if b or v:
             ops.append("Z %d %d %d %d" % (i + 1, b, v, rng.randrange(1, 1000)))
+    jit = rng.random() < 0.3          # the real JitRuntime::_add: the base is not ours, so every target is out of rel32 reach
     base = rng.choice([0x10000000, 0x7F0000000000, 0x400000])
-    far = [base + (1 << 40) + rng.randrange(0, 1 << 30) for _ in range(rng.choice([0, 0, 1, 2, 3, 5]))]
-    near = [base + rng.randrange(0, 1 << 20) for _ in range(rng.choice([0, 1, 2, 4]))]
+    if jit:
+        far = [(1 << 33) + rng.randrange(0, 1 << 38) for _ in range(rng.choice([1, 2, 3, 5]))]
+        near = []
+    else:
+        far = [base + (1 << 40) + rng.randrange(0, 1 << 30) for _ in range(rng.choice([0, 0, 1, 2, 3, 5]))]
+        near = [base + rng.randrange(0, 1 << 20) for _ in range(rng.choice([0, 1, 2, 4]))]
     seq = far + near
     seq += [rng.choice(seq) for _ in range(rng.randrange(0, 3))] if seq else []
     rng.shuffle(seq)
     for a in seq:
         ops.append("K %d %d" % (a, CALL_LEN))
+    secs[0]["b"] = CALL_LEN * len(seq)
     tab_last = True
+    if seq:
+        secs.append(dict(id=len(secs), order=INT_MAX, align=8, b=0, v=8 * len(set(seq))))
     if rng.random() < 0.35:
         order = rng.choice([INT_MAX, 0, 5, INT_MAX])
-        ops.append("N %s %d %d" % (hexname(b".post"), rng.choice(ALIGN_POW[:8]), order))
+        al = rng.choice(ALIGN_POW[:8])
+        ops.append("N %s %d %d" % (hexname(b".post"), al, order))
         b, v = gen_sizes(rng)
-        nid = npre + 1 + (1 if seq else 0)
+        secs.append(dict(id=len(secs), order=order, align=al, b=b, v=v))
         if b or v:
-            ops.append("Z %d %d %d %d" % (nid, b, v, rng.randrange(1, 1000)))
+            ops.append("Z %d %d %d %d" % (len(secs) - 1, b, v, rng.randrange(1, 1000)))
         if order == INT_MAX and seq:
             tab_last = False
     used = len(set(far))
-    ops += ["L", "C", "F", "L", "C", "X %d %d" % (base, used)]
-    if tab_last:
-        ops.append("L")
-    ops.append("C")
     counters["addrtab_scenarios"] += 1
     counters["addrtab_%s" % ("none" if not seq else "last" if tab_last else "not_last")] += 1
     counters["addrtab_used_%s" % ("0" if used == 0 else "all" if used == len(set(seq)) else "some")] += 1
+    if jit:
+        ops += ["L", "C", "J"] if rng.random() < 0.5 else ["L", "C", "F", "L", "J"]
+        counters["jit_add_with_relocations"] += 1
+        return " ".join(ops)
+    need = layout_end([(x["align"], x["b"], x["v"]) for x in sorted(secs, key=lambda x: (x["order"], x["id"]))])
+    final = need - (8 * (len(set(seq)) - used) if (seq and tab_last) else 0)
+    ops += ["L", "C", "F", "L", "C"]
+    if seq and rng.random() < 0.3:
+        ops.append("P %d %d" % (need, rng.randrange(4)))        # the image before relocation
+    ops += ["X %d %d" % (base, used), "L", "C"]
+    for n in [final, need, max(final - 1, 0), final + 9, rng.randrange(0, need + 2)]:
+        ops.append("P %d %d" % (n, rng.randrange(4)))           # the relocated image, all flag combinations over the runs
+        counters["copy_after_relocation"] += 1
     return " ".join(ops)
 
 
@@ -282,6 +305,34 @@ def unrle(s):
         v, n = run.split("*")
         out += bytes([int(v)]) * int(n)
     return bytes(out)
+
+
+def le(v, n):
+    return bytes((v >> (8 * k)) & 0xFF for k in range(n))
+
+
+def relocated_bytes(calls, base, text_off, tab_off):
+    """x86-64 `call <abs>` sites after relocation, from the instruction set manual (independent of AsmJit and of the Coq model):
+    E8 rel32 (with the 40h REX placeholder in front) when the target is within +-2 GiB of the next instruction placed at `base`,
+    otherwise FF /2 [rip+rel32] through an 8-byte slot of the address table (one slot per distinct target, in order of first use).
+    base None = every target is out of reach wherever the image is placed.  Returns (text bytes, table bytes)."""
+    text = bytearray()
+    slots = []
+    for pos, target in calls:
+        nxt = text_off + pos + 6
+        d = None if base is None else target - (base + nxt)
+        if d is not None and -(1 << 31) <= d < (1 << 31):
+            text += b"\x40\xE8" + le(d & 0xFFFFFFFF, 4)
+        else:
+            if target not in slots:
+                slots.append(target)
+            rel = tab_off + 8 * slots.index(target) - nxt
+            text += b"\xFF\x15" + le(rel & 0xFFFFFFFF, 4)
+    return bytes(text), b"".join(le(t, 8) for t in slots)
+
+
+def section_bytes(s):
+    return s["data"] if s.get("data") is not None else bytes(pattern(s["seed"], k) for k in range(s["b"]))
 
 
 def ideal_walk(order):
@@ -330,14 +381,18 @@ def judge(line, ans):
     secs_order = [0]
     addrs = set()
     tab = None
+    tab_expect = None
+    calls = []
     while i < len(toks):
         op = toks[i]
         if op == "D":
             i += 2; nxt()
             secs = {0: dict(id=0, order=INT_MIN, align=0, b=0, v=0, seed=0, name=TEXT_NAME, off=0)}
-            addrs = set(); tab = None
-        elif op == "N":
+            addrs = set(); tab = None; calls = []
+        elif op in ("N", "Ns"):
             name = bytes.fromhex(toks[i + 1]) if toks[i + 1] != "-" else b""
+            if op == "Ns":
+                name = name.split(b"\0")[0]      # strlen
             al, order = int(toks[i + 2]), int(toks[i + 3]); i += 4
             a = nxt()
             exp = "EINVAL" if not (al == 0 or (al & (al - 1)) == 0) else "ENAME" if len(name) > 35 else "ok:%d" % len(secs)
@@ -362,9 +417,11 @@ def judge(line, ans):
             if not a.startswith("K:ok:"):
                 out.append(("C10/harness/emit-call", "call emission failed: %s" % a))
                 return out
+            addr = int(toks[i - 2])
+            calls.append((secs[0]["b"], addr))
             secs[0]["b"] = int(a[5:])
             secs[0]["seed"] = None
-            addr = int(toks[i - 2])
+            secs[0]["data"] = b"\x40\xE8\0\0\0\0" * len(calls)
             if addr not in addrs:   # every distinct absolute target reserves one 8-byte slot in `.addrtab` (created on demand)
                 addrs.add(addr)
                 if tab is None:
@@ -378,8 +435,10 @@ def judge(line, ans):
             a = nxt()
             if a != "I:" + ",".join(str(k) for k in range(len(secs))) and sizes_known:
                 out.append(("C10/section-table/ids", "sections() holds ids %s, expected 0..%d" % (a, len(secs) - 1)))
-        elif op == "B":
+        elif op in ("B", "Bs"):
             key = bytes.fromhex(toks[i + 1]) if toks[i + 1] != "-" else b""
+            if op == "Bs":
+                key = key.split(b"\0")[0]
             i += 2
             a = nxt()
             if not sizes_known:
@@ -460,6 +519,14 @@ def judge(line, ans):
                         last_flat_end = end
                         last_flat = {r[0]: (r[3], r[4], r[5]) for r in rows}
                         flattened_clean = True
+            if tab_expect is not None and tab is not None:
+                r = next(r for r in rows if r[0] == tab)
+                if (r[5], r[4]) != tab_expect:
+                    out.append(("C10/addrtab/sizes-after-relocation", "address table (buffer, virtual) sizes %s after relocation, expected %s" % ((r[5], r[4]), tab_expect)))
+                for r0 in rows:
+                    if r0[0] != tab and (r0[3], r0[4], r0[5]) != (secs[r0[0]]["off"], secs[r0[0]]["v"], secs[r0[0]]["b"]):
+                        out.append(("C10/addrtab/other-section-changed", "relocate_to_base changed section %d: %s -> %s" % (r0[0], (secs[r0[0]]["off"], secs[r0[0]]["v"], secs[r0[0]]["b"]), r0[3:6])))
+                tab_expect = None
             # adopt the implementation's own report as the current state
             for r in rows:
                 s = secs[r[0]]
@@ -505,6 +572,20 @@ def judge(line, ans):
                 out.append(("C10/harness/relocate", "relocate_to_base failed: %s" % a))
                 return out
             red = int(p[2])
+            used_slots = int(toks[i - 1])
+            if tab is not None:
+                # C04's repair: the used slots are the table's buffer wherever it sits; only a LAST table gives the reservation back
+                order_now = sorted(secs.values(), key=lambda s: (s["order"], s["id"]))
+                is_last = order_now[-1]["id"] == tab
+                exp_red = secs[tab]["v"] - 8 * used_slots if is_last else 0
+                if red != exp_red:
+                    out.append(("C10/addrtab/reduction-wrong", "relocate_to_base reported a reduction of %d, expected %d (%d of %d slots used, table %s)" % (
+                        red, exp_red, used_slots, secs[tab]["v"] // 8, "last" if is_last else "not last")))
+                tab_expect = (8 * used_slots, 8 * used_slots if is_last else secs[tab]["v"])
+                tb, ab = relocated_bytes(calls, int(toks[i - 2]), secs[0]["off"], secs[tab]["off"])
+                if len(ab) != 8 * used_slots:
+                    out.append(("C10/harness/generator", "generator announced %d used slots, the sites need %d" % (used_slots, len(ab) // 8)))
+                secs[0]["data"], secs[tab]["data"] = tb, ab
             sizes_known = False
             last_flat_end = None
         elif op == "P":
@@ -541,7 +622,7 @@ def judge(line, ans):
                     exp[s["off"] + s["b"]:hi] = bytes(hi - s["off"] - s["b"])
             for s in order:
                 if s["b"]:
-                    exp[s["off"]:s["off"] + s["b"]] = bytes(pattern(s["seed"], k) for k in range(s["b"]))
+                    exp[s["off"]:s["off"] + s["b"]] = section_bytes(s)
             if img != bytes(exp):
                 k = next(j for j in range(n) if img[j] != exp[j])
                 out.append(("C10/copy/image-wrong", "copy_flattened_data(dst_size=%d, flags=%d): cell %d holds %d, expected %d" % (n, fl, k, img[k], exp[k])))
@@ -557,6 +638,13 @@ def judge(line, ans):
                 ovf, end = False, max([s["off"] + max(s["b"], s["v"]) for s in order])
             else:
                 ovf, end, offs = ideal_walk(order)
+            if p[1] == "near":
+                continue
+            if calls and tab is not None:
+                # every target is out of rel32 reach of the allocated memory: FF /2 through the table, whatever the base
+                off_of = {s["id"]: o for s, o in zip(order, offs)}
+                tb, ab = relocated_bytes(calls, None, off_of[0], off_of[tab])
+                secs[0]["data"], secs[tab]["data"], secs[tab]["b"] = tb, ab, len(ab)
             if ovf:
                 if p[1] != "ETOOLARGE":
                     out.append(("C10/jit/overflow-accepted", "JitRuntime::_add answered %s for an overflowing layout" % p[1]))
@@ -573,7 +661,7 @@ def judge(line, ans):
                     exp = bytearray(end)         # everything that is not a section byte must be zero
                     for s, off in zip(order, offs):
                         if s["b"]:
-                            exp[off:off + s["b"]] = bytes(pattern(s["seed"], k) for k in range(s["b"]))
+                            exp[off:off + s["b"]] = section_bytes(s)
                     if img != bytes(exp):
                         k = next(j for j in range(end) if img[j] != exp[j])
                         out.append(("C10/jit/image-wrong", "JitRuntime::_add: installed byte %d is %d, expected %d (size %d)" % (k, img[k], exp[k], end)))
@@ -711,6 +799,34 @@ def run(ck):
                              "monitor found no violated property instance in this scenario" % (k, a[:120], b[:120], hint),
                              {"scenario": sc, "impl": x, "model": y, "broken": "correspondence of SectionModel.v (coq/theories/Sections) with /repo asmjit/core/codeholder.cpp"},
                              no_input=True)
+    # ---- S5: the same scenarios under AddressSanitizer + UndefinedBehaviorSanitizer (memory safety of the copy paths is part of
+    # "never writes outside"; UB in them is reported even when the answers are right)
+    import re
+    nsan = ncorpus + (400 if ck.tier == "quick" else 6000)
+    sl = lines[:nsan]
+    san_reports = 0
+    if ri:
+        san = ck.build_harness("c10", ["c10_harness.cpp"], variant="asan")
+        rs = run_sharded(san, sl, shards=8, timeout=tmo)
+        if isinstance(rs, tuple):
+            san_reports = 1
+            txt = rs[2]
+            m = re.search(r"(\S+?):(\d+):\d+: runtime error: ([^\n]*)", txt)
+            if m and "null pointer passed as argument" in m.group(3):
+                key = "C10/ubsan/memcpy-null-source"
+            elif m:
+                key = "C10/ubsan/%s/%s" % (os.path.basename(m.group(1)), re.sub(r"[^a-z0-9]+", "-", m.group(3).lower())[:60])
+            else:
+                m2 = re.search(r"AddressSanitizer: ([a-z-]+)", txt)
+                key = "C10/asan/%s" % (m2.group(1) if m2 else "abort")
+            ck.violation(key, "sanitizer report while executing scenario %r: %s" % (rs[3][:200], (m.group(0) if m else txt[-300:])[:300]),
+                         {"scenario": rs[3], "report": txt[-1500:]})
+        else:
+            for sc, x, z in zip(sl, ri, rs):
+                if x != z:
+                    ck.violation("C10/sanitizer/answers-differ", "plain and sanitizer builds answer differently (uninitialised or out-of-bounds read?): %s vs %s" % (x[:150], z[:150]),
+                                 {"scenario": sc, "impl": x, "impl_sanitizer_build": z})
+                    break
     for o in ck.proof_failures():
         ck.violation("C10/proof/" + o["name"], "theorem %s no longer checks (%s)" % (o["name"], getattr(ck, "coq_log", "")[-800:]),
                      {"broken": "theorem " + o["name"], "file": "coq/theories/Properties/Properties_C10.v"}, no_input=True)
@@ -724,6 +840,7 @@ def run(ck):
                  "a scenario is non-trivial when flatten succeeded on it and its dumps list more than two sections (distinct scenario lines counted)",
          "samples": samples, "scenarios": len(lines), "corpus_scenarios": ncorpus, "scenarios_judged_by_oracle": judged,
          "traces_validated_against_impl": len(lines), "model_vs_impl_disagreements": disagreements,
+         "sanitizer_scenarios": len(sl), "sanitizer_reports": san_reports,
          "input_distribution": dict(counters)},
         assumptions=["the C++ harness calls the real CodeHolder::{new_section, section_by_name, flatten, code_size, copy_flattened_data, copy_section_data, "
                      "relocate_to_base} of /repo's working tree; section contents are fabricated through the public CodeBuffer::_size / Section::_virtual_size "
